@@ -20,7 +20,8 @@ Inductive cmd :=
 | CDropStore (c : N)                        (* drop of the container *)
 | CCacheNew (c k : N)                       (* Cache::new(&c) -> cache handle k *)
 | CCacheLoad (k : N)                        (* Cache::load *)
-| CSetGen (g : N).                          (* verif::set_generation(g) (C13) *)
+| CSetGen (g : N)                           (* verif::set_generation(g) (C13) *)
+| CMove (h h2 : N).                         (* the program moves a handle (no library call) *)
 
 Inductive handle :=
 | HEmpty
